@@ -1,4 +1,5 @@
 import RainModel.Lemmas.LoopPeers
+import RainModel.Lemmas.LoopHmd
 import RainModel.Lemmas.LoopMeta
 import RainModel.Lemmas.LoopIdl
 import RainModel.Lemmas.LoopWeak
@@ -23,41 +24,24 @@ theorem adopt_only_if_hash (m : M) (k i len : Nat) (good : Bool) (h0 : m.1.info 
     m.1.cfg.isPrivate = false ∧
     ∃ d, m.1.idls.find? (·.k = k) = some d ∧ i < d.nb ∧ len = blockSizeOf d.size i ∧
       d.pending - 1 = 0 ∧ HashOK m.1 d i good := by
-  unfold handleMetadataData at h1
-  dsimp only at h1
-  split at h1
-  · simp [h0] at h1
-  · next d hd =>
-    split at h1
-    · simp [h0] at h1
-    · next hi =>
-      split at h1
-      · simp [h0] at h1
-      · next hlen =>
-        split at h1
-        · simp [h0] at h1
-        · next hpend =>
-          split at h1
-          · simp [h0] at h1
-          · next hhash =>
-            split at h1
-            · simp [h0] at h1
-            · next hpriv =>
-              refine ⟨by simpa using hpriv, d, hd, by omega, by simpa using hlen, by simpa using hpend, ?_⟩
-              simp only [Bool.not_eq_true', Bool.and_eq_false_iff, not_or, Bool.not_eq_false] at hhash
-              simp only [decide_eq_true_eq, List.all_eq_true] at hhash
-              exact ⟨hhash.1, fun x hx => by simpa using hhash.2 x hx⟩
+  rcases handleMetadataData_info_cases m k i len good with h | ⟨d, hc⟩
+  · rw [h, h0] at h1; cases h1
+  · rw [handleMetadataData_complete m d k i len good hc, hmdAdopt_info_eq] at h1
+    have h0' : (hmdStored m d k i good).1.info = false := h0
+    have hcfg : (hmdStored m d k i good).1.cfg = m.1.cfg := rfl
+    rw [h0', hcfg] at h1
+    obtain ⟨hd, hi, hlen, hpend, hh⟩ := hc
+    have h2 : m.1.cfg.n ≤ m.1.cfg.maxPieces ∧ m.1.cfg.isPrivate = false := by simpa using h1
+    exact ⟨h2.2, d, hd, hi, hlen, hpend, hh⟩
 
 /-- **private_magnet_refused.** A private torrent never adopts metadata fetched from peers, whatever the
 peers send. -/
 theorem private_magnet_refused (m : M) (k i len : Nat) (good : Bool) (hp : m.1.cfg.isPrivate = true) :
     (handleMetadataData m k i len good).1.info = m.1.info := by
-  unfold handleMetadataData
-  dsimp only
-  repeat' split
-  all_goals first
-    | simp
-    | (rename_i h; simp [hp] at h)
+  rcases handleMetadataData_info_cases m k i len good with h | ⟨d, hc⟩
+  · exact h
+  · rw [handleMetadataData_complete m d k i len good hc, hmdAdopt_refused (hmdStored m d k i good) (Or.inr hp)]
+    simp [hmdStored]
 
 /-- Every event other than a metadata data message leaves `info` alone (handler part of a step). -/
 theorem handle_info (s : St) (p : Parked) (kn : Nat → Bool) (op : Op)
